@@ -5,6 +5,14 @@ from .engine import *
 from .execbase import ExecBase
 
 
+def mul_uf(X, Y):
+    w = X.size()
+    f = z3.Function('mul%d' % w, z3.BitVecSort(w), z3.BitVecSort(w), z3.BitVecSort(w))
+    if X.get_id() > Y.get_id():
+        X, Y = Y, X
+    return f(X, Y)
+
+
 class K:
     """prepared constant operand"""
     __slots__ = ('v',)
@@ -186,7 +194,34 @@ class Ops(ExecBase):
         self.do_return(st, r)
         return 'ctl'
 
+    def name_big_terms(self, st, r, limit):
+        """//verif:opt name_terms=N: a machine-word result of a call whose term has more than N nodes is
+        replaced by a fresh constant defined equal to it (the definition joins the path condition). The
+        incremental solver then reasons about the callers' arithmetic over that constant instead of
+        through the callee's multiplications and divisions; nothing is abstracted away."""
+        if isinstance(r, tuple):
+            return tuple(self.name_big_terms(st, x, limit) for x in r)
+        if not (is_sym(r) and z3.is_bv(r)) or z3.is_const(r):
+            return r
+        seen = set()
+        stack = [r]
+        while stack and len(seen) <= limit:
+            t = stack.pop()
+            i = t.get_id()
+            if i in seen:
+                continue
+            seen.add(i)
+            stack.extend(t.children())
+        if len(seen) <= limit:
+            return r
+        k = z3.BitVec(self.fresh_name('t'), r.size())
+        self.add_constraint(st, k == r)
+        return k
+
     def do_return(self, st, r):
+        lim = self.opts.get('name_terms')
+        if lim and r is not None and len(st.frames) > 1:
+            r = self.name_big_terms(st, r, int(lim))
         f = st.frames.pop()
         if st.frames:
             if f.dest is not None:
@@ -600,6 +635,11 @@ class Ops(ExecBase):
         if op == '-':
             return X - Y
         if op == '*':
+            if self.opts.get('mul_uf') and is_sym(x) and is_sym(y):
+                # //verif:opt mul_uf=1: a product of two symbolic words is an uninterpreted function of
+                # them (commutative by argument order). Sound for proofs (every real product is one
+                # interpretation); a counterexample that depends on the interpretation fails its replay.
+                return mul_uf(X, Y)
             return X * Y
         if op in ('/', '%'):
             if is_sym(y):
